@@ -26,27 +26,30 @@ type Table struct {
 
 // Backend is one scripted Livestatus server.
 type Backend struct {
-	mu           sync.Mutex
-	ID           string
-	Path         string
-	Tables       map[string]*Table
-	Mode         string // ok | refuse | garbage | badheader | truncate | wrongwidth | error500 | closeearly
-	FailAfter    int    // answer this many more queries, then switch to FailMode (-1: never)
-	FailMode     string
-	Log          []string   // every request text received
-	Replies      []Reply    // what was answered to Log[i] (Code 0: nothing usable was sent)
-	Commands     []string   // every command line received
-	Batches      [][]string // the commands received, one list per connection
-	connSeq      int
-	takenBatches [][]string
-	takenReplies []Reply
-	CmdReply     string // reply to commands ("" = none)
-	RawStrings   bool   // texts are written byte by byte like a core does (see rawJSON)
-	ResetCmd     bool   // a closing backend (closeearly) drops a command's connection with unread bytes queued: the sender reads ECONNRESET, not EOF
-	Queries      int
-	listener     net.Listener
-	Now          func() time.Time
-	conns        map[net.Conn]bool
+	mu            sync.Mutex
+	ID            string
+	Path          string
+	Tables        map[string]*Table
+	Mode          string // ok | refuse | garbage | badheader | truncate | wrongwidth | error500 | closeearly
+	FailAfter     int    // answer this many more queries, then switch to FailMode (-1: never)
+	FailMode      string
+	Log           []string   // every request text received
+	Replies       []Reply    // what was answered to Log[i] (Code 0: nothing usable was sent)
+	Commands      []string   // every command line received
+	Batches       [][]string // the commands received, one list per connection
+	connSeq       int
+	takenBatches  [][]string
+	takenReplies  []Reply
+	CmdReply      string // reply to commands ("" = none)
+	FailTable     string // the next request for this table is answered like FailTableMode (once), whatever the order of the requests
+	FailTableMode string
+	FailTableHits int
+	RawStrings    bool // texts are written byte by byte like a core does (see rawJSON)
+	ResetCmd      bool // a closing backend (closeearly) drops a command's connection with unread bytes queued: the sender reads ECONNRESET, not EOF
+	Queries       int
+	listener      net.Listener
+	Now           func() time.Time
+	conns         map[net.Conn]bool
 }
 
 // Reply is what the backend answered to one request.
@@ -715,6 +718,11 @@ func (b *Backend) handle(conn net.Conn, lines []string, _ int, batch *int) (keep
 		writeReply(conn, true, 400, []byte(err.Error()+"\n"))
 
 		return false
+	}
+	if req.command == "" && b.FailTable != "" && req.table == b.FailTable && mode == "ok" {
+		mode = b.FailTableMode
+		b.FailTable = ""
+		b.FailTableHits++
 	}
 	if req.command != "" {
 		b.Commands = append(b.Commands, req.command)
